@@ -206,7 +206,7 @@ func (fr *Frame) callStatic(fn *ssa.Function, args []Val, bindings []Val, pos to
 	// contract? (in spec mode a loop-free body is its own strongest postcondition: inline it)
 	if ct := c.eng.contractOf(fn); ct != nil && ct.Flags["inline"] == "" {
 		loopFree := len(fn.Blocks) > 0 && len(c.eng.funcInfo(fn).loops) == 0
-		if !((fr.spec || fr.inQuant) && loopFree && ct.Flags["opaque"] == "" && !c.onStack(fn) && fr.depth < c.eng.maxDepth) {
+		if !((fr.spec || fr.inQuant) && loopFree && ct.Flags["opaque"] == "" && ct.Flags["assumed"] == "" && ct.Flags["pure"] == "" && !c.onStack(fn) && fr.depth < c.eng.maxDepth) {
 			return fr.useContract(fn, ct, args, pos, resType)
 		}
 	}
@@ -409,7 +409,7 @@ func (fr *Frame) markerCall(fn *ssa.Function, args []Val, pos token.Pos, resType
 		fr.applyModifies(mk, args)
 		// ghost event flags can only be raised by the callee
 		if strings.Contains(strings.Join(mk.contract.Modifies, ","), ".err") {
-			for _, gk := range []string{"ghost:readFailed", "ghost:errRaised"} {
+			for _, gk := range []string{"ghost:readFailed", "ghost:errRaised", "ghost:shortRead"} {
 				fr.cur.set(gk, Or(fr.cur.get(gk, SBool), FreshVar("raised", SBool)))
 			}
 		}
@@ -704,7 +704,7 @@ func (fr *Frame) specHelper(name string, fn *ssa.Function, args []Val, pos token
 	case "vcErrorRaised":
 		er := fr.cur.get("ghost:errRaised", SBool)
 		c.prefer = append(c.prefer, Not(er))
-		return Val{T: Or(fr.cur.get("ghost:readFailed", SBool), er)}, true
+		return Val{T: Or(fr.cur.get("ghost:readFailed", SBool), er, fr.cur.get("ghost:shortRead", SBool))}, true
 	case "vcArr":
 		return Val{T: DataField_(args[0].T, 0)}, true
 	case "vcOff":
